@@ -62,3 +62,22 @@ Definition bad {A} (f : A -> bool) (l : list A) : list N := bad_from f 0 l.
 Definition mk (a : N) (n v : str) : rule :=
   {| r_act := match a with 0 => Remove | 1 => RemoveByPrefix | 2 => Empty | 3 => Add | _ => RenameCase end;
      r_name := n; r_val := v |}.
+
+(* end-to-end case (real binary): message kind, configured rules, the probe
+   fields of the message as sent, and as observed at the next hop / the client *)
+Record ecase := { e_kind : msg_kind; e_cfg : rule_cfg; e_in : hmap; e_out : hmap; e_probe : list str }.
+
+Definition ecase_expected (c : ecase) : hmap :=
+  match e_kind c with
+  | ReqConnect => connect_upstream_view (e_cfg c) (e_in c)
+  | k => dispatch (e_cfg c) k (e_in c)
+  end.
+
+Definition agree_on (probe : list str) (h1 h2 : hmap) : bool :=
+  forallb (fun k => opt_vals_eqb (raw_get k h1) (raw_get k h2)) (probe ++ keys h1 ++ keys h2).
+
+(* correspondence: the binary shows what the model of the wiring predicts *)
+Definition ecase_model_ok (c : ecase) : bool := agree_on (e_probe c) (e_out c) (ecase_expected c).
+(* oracle: what is observed equals the rules applied once, in order, to the message *)
+Definition ecase_prop_ok (c : ecase) : bool :=
+  agree_on (e_probe c) (e_out c) (dispatch (e_cfg c) (e_kind c) (e_in c)).
